@@ -41,6 +41,15 @@ CompatibleByCases(vt, lt) ==
   ELSE IF vt.k = "list" THEN FALSE
   ELSE vt.name = lt.name
 
+\* Kinds of named types (section 3.4.2 / 3.5: leaf, abstract, composite, input, output).  The rules are
+\* written with these predicates; the library exposes them as methods of ast.Definition.
+Kinds == {"SCALAR", "OBJECT", "INTERFACE", "UNION", "ENUM", "INPUT_OBJECT"}
+IsLeafKind(k)      == k \in {"SCALAR", "ENUM"}
+IsAbstractKind(k)  == k \in {"INTERFACE", "UNION"}
+IsCompositeKind(k) == k \in {"OBJECT", "INTERFACE", "UNION"}
+IsInputKind(k)     == k \in {"SCALAR", "ENUM", "INPUT_OBJECT"}
+IsOutputKind(k)    == k \in {"SCALAR", "OBJECT", "INTERFACE", "UNION", "ENUM"}
+
 \* "a is at least as strict as b at every level and has the same shape": the order Compatible induces
 RECURSIVE SameShape(_, _)
 SameShape(a, b) == a.k = b.k /\ (IF a.k = "named" THEN a.name = b.name ELSE SameShape(a.of[1], b.of[1]))
